@@ -49,7 +49,9 @@ ASSUMPTIONS = [
 
 COMMENTS = ["", " ", "   ", "soma", " leading blank", "trailing blank  ", "# hash", "x y z", "1 1 0 0 0 1 -1",
             "CREATED-BY tool 1.2", "née à Zürich µm", "神经元 形态", "a#b", "\tTAB", "ORIGINAL_SOURCE Neurolucida",
-            "scale 1.0 1.0 1.0", "-", "#"]
+            "scale 1.0 1.0 1.0", "-", "#",
+            # characters that str.splitlines() treats as line ends but text files do not: they stay inside the line
+            "form\x0cfeed", "vt\x0btab", "nel\x85next", "ls\u2028sep", "ps\u2029sep", "fs\x1cgs\x1drs\x1eend"]
 SOURCES = ["", "", "/data/neuron 1.swc", "nœud.swc", "Unknown"]
 
 
@@ -78,6 +80,12 @@ def generate(rng: Prng, tier: str) -> dict:
         shape = None
     tree = tree_model.gen_tree(w, n, shape)
     comments = [w.choice(COMMENTS) + (f" k{i}" if w.chance(0.5) else "") for i in range(w.choice([0, 0, 1, 2, 3, 4]))]
+    lc = rng.stream("long_comment")
+    if lc.chance(0.04):
+        # a header of tens of kilobytes made of multi-byte characters: wherever a reader cuts its input into blocks
+        # (8192, 65536 bytes or characters, ...) the cut falls inside a character
+        unit = lc.choice(["µ", "神经元", "é°", "a神", "𝛼β"])
+        comments.insert(lc.below(len(comments) + 1), unit * (lc.choice([9000, 20000, 70000]) // len(unit.encode("utf-8")) + lc.below(7)))
     gens = []
     for g in range(w.weighted([(1, 6), (2, 4)])):
         offs = [0, 1, 1, 1, 2, 7, 10**6, 2**31 - 1 - n]
